@@ -1119,6 +1119,17 @@ def unforgeability(assertions, honest, attacker_terms, mac_lengths=(32, 48)):
         for w in windows:
             if any(w.eq(q[3]) for q in hq): continue
             lem.append(Implies(And(w == m, Length(w) == Length(m)), Or(*[And(key == q[1], data == q[2]) for q in hq]) if hq else BoolVal(False)))
+    # the same idealisation on what the code actually compares: if one side of a comparison is (syntactically) a full MAC
+    # application under a secret-derived key, equality means the other side is the output of an honest query on (key, data).
+    # A comparison of truncated values is not of this form and gets no instance - acceptance is then unconstrained.
+    for x, y in honest.get('compares', []):
+        for m, w in ((x, y), (y, x)):
+            if not (is_app(m) and m.decl().kind() == Z3_OP_UNINTERPRETED and m.decl().name() in ('blake2b', 'hmac_sha384')): continue
+            key = m.arg(1) if m.decl().name() == 'blake2b' else m.arg(0)
+            data = m.arg(2) if m.decl().name() == 'blake2b' else m.arg(1)
+            if not any(key.eq(k) for k in hk): continue
+            hq = [q for q in honest.get('mac', []) if q[0] == m.decl().name()]
+            lem.append(Implies(w == m, Or(*[And(key == q[1], data == q[2]) for q in hq]) if hq else BoolVal(False)))
     for v in [t for n in ('ed25519_verify', 'p384_ecdsa_verify_sha384', 'rsa_pss_sha384_verify') for t in apps.get(n, [])]:
         hq = [q for q in honest.get('sign', []) if q[0] == v.decl().name()]
         pks = []
